@@ -1642,6 +1642,7 @@ class Message(ABC):
                         output[cased_name] = value
                 elif (
                     value._serialized_on_wire
+                    or meta.optional
                     or include_default_values
                     or self._include_default_value_for_oneof(
                         field_name=field_name, meta=meta
@@ -1976,6 +1977,7 @@ class Message(ABC):
                         output[cased_name] = None
                 elif (
                     value._serialized_on_wire
+                    or meta.optional
                     or include_default_values
                     or self._include_default_value_for_oneof(
                         field_name=field_name, meta=meta
